@@ -79,6 +79,12 @@ def run_case(acc, cseed, tmpdir):
     for it in GOOD_ITERS + [rng.randrange(65536), str(rng.randrange(65536)),
                             hex(rng.randrange(65536))]:
         h = rng.randbytes(32)
+        k_ = rng.random()
+        if k_ < 0.3:
+            # hashes that begin or end with zero bytes, or are mostly zero: 32 bytes all the same
+            z = rng.choice([1, 1, 2, 4, 16, 31, 32])
+            h = (bytes(z) + h)[:32] if rng.random() < 0.6 else (h + bytes(z))[-32:]
+            acc.count("hashes_with_zero_bytes_at_an_end")
         hx = h.hex() if rng.random() < 0.7 else h.hex().upper()
         acc.evaluations += 1
         try:
